@@ -27,6 +27,7 @@ Definition strings_dispatch : family := fun d now nowms n args hint =>
   else if is n (B "decr") then Some (exec_decr d args)
   else if is n (B "incrby") then Some (exec_incrby d args)
   else if is n (B "decrby") then Some (exec_decrby d args)
+  else if is n (B "incrbyfloat") then Some (exec_incrbyfloat d args hint)
   else if is n (B "append") then Some (exec_append d args)
   else if is n (B "del") then Some (exec_del d args)
   else if is n (B "exists") then Some (exec_exists d args)
